@@ -3,7 +3,7 @@ CONSTANTS
   MaxTail = 3
   SmallTail = 2
   TailTypes = {"Rtype", "SvcParamKey", "Opcode", "TsigRcode", "SecurityAlgorithm", "Rcode"}
-  FullTypes = {"Rtype"}
+  FullTypes = {}
   Emitting = FALSE
 SPECIFICATION Spec
 INVARIANT CodeLaws
